@@ -258,7 +258,7 @@ def extract(config="default", nocache=False, log=sys.stderr) -> Path:
             tmp_final.rename(out)
         finally:
             shutil.rmtree(scratch, ignore_errors=True)
-        _gc_facts(keep=12)
+        _gc_facts(keep=int(os.environ.get("VERIF_FACTS_KEEP", "12")))
     return out
 
 
